@@ -92,7 +92,40 @@ def rename_locals(tree):
 
 
 
-GLOBAL_VARIANTS = ("roundtrip", "logall", "docstrings", "rename")
+class FlipIfElse(ast.NodeTransformer):
+    """`if c: A else: B` -> `if not c: B else: A` (plain if/else only, no elif chains)"""
+    def visit_If(self, node):
+        self.generic_visit(node)
+        if node.orelse and not (len(node.orelse) == 1 and isinstance(node.orelse[0], ast.If)) and not isinstance(node.test, ast.NamedExpr) \
+                and not any(isinstance(n, ast.NamedExpr) for n in ast.walk(node.test)):
+            test = node.test.operand if isinstance(node.test, ast.UnaryOp) and isinstance(node.test.op, ast.Not) else ast.UnaryOp(op=ast.Not(), operand=node.test)
+            return ast.If(test=test, body=node.orelse, orelse=node.body)
+        return node
+
+
+class FlipCompare(ast.NodeTransformer):
+    """`a == b` -> `b == a`, `a < b` -> `b > a` for single comparisons of side-effect-free operands"""
+    SW = {ast.Eq: ast.Eq, ast.NotEq: ast.NotEq, ast.Lt: ast.Gt, ast.Gt: ast.Lt, ast.LtE: ast.GtE, ast.GtE: ast.LtE}
+
+    def visit_Compare(self, node):
+        self.generic_visit(node)
+        if len(node.ops) == 1 and type(node.ops[0]) in self.SW and not any(isinstance(n, (ast.Call, ast.Await, ast.NamedExpr, ast.Yield)) for n in ast.walk(node)):
+            return ast.Compare(left=node.comparators[0], ops=[self.SW[type(node.ops[0])]()], comparators=[node.left])
+        return node
+
+
+class AugToAssign(ast.NodeTransformer):
+    """`x += e` -> `x = x + e` for plain names and self attributes"""
+    def visit_AugAssign(self, node):
+        import copy
+        if isinstance(node.target, ast.Name) or (isinstance(node.target, ast.Attribute) and isinstance(node.target.value, ast.Name)):
+            load = copy.deepcopy(node.target)
+            load.ctx = ast.Load()
+            return ast.Assign(targets=[node.target], value=ast.BinOp(left=load, op=node.op, right=node.value), lineno=node.lineno)
+        return node
+
+
+GLOBAL_VARIANTS = ("roundtrip", "logall", "docstrings", "rename", "flipif", "flipcmp")
 
 
 def rewrite_tree(variant: str, pkg_dir: str) -> int:
@@ -114,6 +147,12 @@ def rewrite_tree(variant: str, pkg_dir: str) -> int:
                 tree = Docstrings().visit(tree)
             elif variant == "rename":
                 tree = rename_locals(tree)
+            elif variant == "flipif":
+                tree = FlipIfElse().visit(tree)
+            elif variant == "flipcmp":
+                tree = FlipCompare().visit(tree)
+            elif variant == "augassign":
+                tree = AugToAssign().visit(tree)
             elif variant != "roundtrip":
                 raise ValueError(f"unknown variant {variant}")
             ast.fix_missing_locations(tree)
